@@ -157,6 +157,19 @@ def observe_rid(r):
 RID_OBS = ("pack", "as_u32", "ccsds_version", "packet-type", "sec-hdr-flag", "apid", "seq-flags", "seq-count", "tc_packet_id.raw", "tc_psc.raw")
 
 
+def _rid_pure(r):
+    p, q = r.tc_packet_id, r.tc_psc
+    return (int(r.ccsds_version), int(p.ptype), int(bool(p.sec_header_flag)), int(p.apid), int(q.seq_flags), int(q.seq_count))
+
+
+def _rid_keeper(rec):
+    k = getattr(rec, "_rid_keeper", None)
+    if k is None:
+        from mc.alias import Keeper
+        k = rec._rid_keeper = Keeper(rec, "C15", depth=8, live=True)
+    return k
+
+
 def check_rid(rec: Rec, w0, w1, dl, other, nontrivial=True):
     """all routes to one 32-bit value (w0 << 16 | w1) against the reference octets and each other; `other` is a
     different 32-bit value that must compare unequal"""
@@ -187,6 +200,16 @@ def check_rid(rec: Rec, w0, w1, dl, other, nontrivial=True):
             fails.append((route, next(n for n, a, b in zip(RID_OBS, obs, exp) if a != b), obs))
             continue
         objs.append((route, r))
+    # independence oracle (mc/alias.py): request IDs and the very objects pack() returned for EARLIER values must not
+    # have changed (shared output buffers, cached templates); pure attribute reads only
+    keep = _rid_keeper(rec)
+    keep.recheck(case)
+    for route, r in objs[:2]:
+        try:
+            keep.hold("RequestId.pack", r.pack(), bytes, case)
+            keep.hold("RequestId." + route.split("(")[0], r, _rid_pure, case)
+        except Exception:
+            pass
     if len(fails) == len(routes) and len(set(f[1] for f in fails)) == 1:  # every route fails the same way: one defect site, one signature
         bad("reqid/RequestId/" + fails[0][1], {"routes": "all", "observed": fails[0][2]}, exp, feat)
     else:
@@ -492,7 +515,8 @@ def check_s1(rec: Rec, c, nontrivial=True):
 
 
 # ---------------------------------------------------------------------------------- refusal
-REFUSE_ENTRIES = ("VerificationParams.verify_against_subservice", "Service1Tm()")
+# the last two: the subservice handed over as a plain int (what a decoded report's .subservice or a loop over 1..8 gives) instead of the enum member
+REFUSE_ENTRIES = ("VerificationParams.verify_against_subservice", "Service1Tm()", "VerificationParams.verify_against_subservice(int)", "Service1Tm(int)")
 
 
 def check_refuse(rec: Rec, sub, step, fail, T, entry):
@@ -512,10 +536,11 @@ def check_refuse(rec: Rec, sub, step, fail, T, entry):
     vp = s1.VerificationParams(rid, L.PFE.with_byte_size(step[1], step[0]) if step else None,
                                s1.FailureNotice(L.PFE.with_byte_size(fail[0][1], fail[0][0]), payload(fail[1])) if fail else None)
     try:
-        if entry == REFUSE_ENTRIES[0]:
-            vp.verify_against_subservice(s1.Subservice(sub))
+        subv = int(sub) if entry.endswith("(int)") else s1.Subservice(sub)
+        if entry.startswith(REFUSE_ENTRIES[0]):
+            vp.verify_against_subservice(subv)
         else:
-            s1.Service1Tm(apid=1, subservice=s1.Subservice(sub), timestamp=STAMP[:T], verif_params=vp).pack()
+            s1.Service1Tm(apid=1, subservice=subv, timestamp=STAMP[:T], verif_params=vp).pack()
     except (s1.InvalidVerifParams, ValueError) as e:
         rec.outcome("refuse:%s/%s" % (type(e).__name__, "valid" if valid else "mismatch"))
         if valid:
